@@ -38,6 +38,10 @@ Definition script_for (kind target : Z) (catch_each : bool) : str * Z :=
     (nest kind d catch_each, 1 + d * per)
   else if kind =? 4 then
     let k := Z.max (target - 3) 0 in (lit "down " ++ show_Z k, k + 3)
+  else if kind =? 7 then
+    (* recursion through a command substitution inside an expression: as deep as `down` *)
+    let k := Z.max (target - 3) 0 in
+    (lit "proc sum {n} {if {$n <= 0} {rec deep; return 0}; expr {1 + [sum [expr {$n - 1}]]}}; sum " ++ show_Z k, k + 3)
   else
     let k := Z.max ((target - 3) / 2) 0 in (lit "ping " ++ show_Z k, 2 * k + 3).
 
